@@ -10,12 +10,26 @@ CL_PROPS = ["EventuallyRecovered", "StopTerminates"]
 
 
 def model(chk, label, c, timeout=2400):
+    c = dict(c, AwaitDereg=True)
     with vp.Scratch("mc-" + label) as d:
         vp.copy_specs(d, ["Cluster"])
         res = vp.run_tlc(d, "Cluster", vp.cfg_text("Spec", c, CL_INV, CL_PROPS, None), timeout=timeout)
     chk.add_tlc(res, label)
     if res.error or res.violated or res.queue != 0:
         raise vp.Machinery("Cluster.tla model %s failed (%s):\n%s" % (label, res.violated, res.out[-3000:]))
+
+
+def model_d6(chk, c):
+    """The design of the pinned tree (Shutdown() does not wait for the handlers to deregister) must violate
+    LeftViewsAreEmpty / StoppedNodeAdvertisesNothing in the model: the invariants are not vacuous."""
+    c = dict(c, AwaitDereg=False)
+    with vp.Scratch("mc-C18-d6") as d:
+        vp.copy_specs(d, ["Cluster"])
+        res = vp.run_tlc(d, "Cluster", vp.cfg_text("Spec", c, CL_INV, (), None), timeout=600)
+    chk.add_tlc(res, "C18-model-without-await (must fail)")
+    if res.violated not in ("StoppedNodeAdvertisesNothing", "LeftViewsAreEmpty"):
+        raise vp.Machinery("Cluster.tla without AwaitDereg should violate StoppedNodeAdvertisesNothing: %s\n%s"
+                           % (res.violated, res.out[-2000:]))
 
 
 def build_piko():
@@ -57,6 +71,13 @@ def c18(chk):
     model(chk, "C18-model-notify1", {"Node": {"a", "b", "c"}, "Lsn": {"l1"}, "MaxNotify": 1})
     if not quick:
         model(chk, "C18-model-4", {"Node": {"a", "b", "c", "d"}, "Lsn": {"l1", "l2"}, "MaxNotify": 2}, timeout=3000)
+    model_d6(chk, {"Node": {"a", "b"}, "Lsn": {"l1", "l2"}, "MaxNotify": 4})
+    # the stop order on an in-process node with many upstream connections, observed from a peer
+    v, st0 = engine.run(chk, "peng", {"mode": "stoporder", "n": 300, "sample": 3 if quick else 25}, "stop-order",
+                        "TraceC", {}, ["NoStepViolation"], "peng-loss", what="the stopping node as seen by its peer",
+                        strip=(), timeout=1800)
+    if st0.get("by_op", {}).get("StopOrder", 0) == 0:
+        raise vp.Machinery("vacuous run: no StopOrder")
     pbin = build_piko()
     logdir = os.path.join(vp.OUT, "c18-logs")
     os.makedirs(logdir, exist_ok=True)
@@ -68,7 +89,7 @@ def c18(chk):
                        strip=(), timeout=3400)
     chk.notes["executed_calls_by_action"] = st.get("by_op")
     chk.notes["scenarios"] = cs
-    chk.nontrivial = st.get("by_op", {}).get("Loss", 0)
+    chk.nontrivial = st.get("by_op", {}).get("Loss", 0) + st0.get("by_op", {}).get("StopOrder", 0)
     chk.rule += "; distinct_nontrivial = loss scenarios executed"
     if st.get("by_op", {}).get("Loss", 0) == 0:
         raise vp.Machinery("vacuous run")
